@@ -89,6 +89,10 @@ RULES = {
     'C16_retype_oods_values': dict(
         kind='C16', pattern='oods_values: &[Felt],', replace='oods_values: &[crate::coeff::OodsVal],',
         why='typing contract of C16 / C01 for the DEEP evaluator: the i-th coefficient weights the opening of the i-th out-of-domain value', assumes='none (the body must type-check unchanged under the stricter types)'),
+    'C16_number_values': dict(
+        kind='C16', fn='number_values', pattern='let value = $E ;   (every occurrence)', replace='let value = crate::coeff::cv($E, K) ;   (K = ordinal of the statement, from 0)',
+        why='typing contract of C16 for the composition evaluator: the K-th computed constraint value can only be weighted by coefficient K (no constraint value dropped, reused or re-weighted)',
+        assumes='none (cv is the identity on the field element; the number is ghost bookkeeping)'),
     'C16_retype_ret_comp': dict(
         kind='C16', pattern='global_values: &GlobalValues, ) -> Felt {', replace='global_values: &GlobalValues, ) -> crate::coeff::Lin {',
         why='coefficient-typing contract of property C16', assumes='none'),
@@ -241,6 +245,45 @@ def _match(pat, txt, i):
     return k, holes
 
 
+def _number_values(name, r, toks, log):
+    """every statement `let value = EXPR ;` becomes `let value = crate::coeff::cv(EXPR, K) ;` with K = 0, 1, 2, ... in textual order"""
+    from assemble import AssembleError
+    out = []
+    i = 0
+    k = 0
+    n = len(toks)
+    while i < n:
+        if toks[i].text == 'let' and i + 2 < n and toks[i + 1].text == 'value' and toks[i + 2].text == '=':
+            j = i + 3
+            depth = 0
+            while j < n and not (toks[j].text == ';' and depth == 0):
+                if toks[j].text in '([{':
+                    depth += 1
+                elif toks[j].text in ')]}':
+                    depth -= 1
+                j += 1
+            if j >= n:
+                raise AssembleError('rewrite rule %s: unterminated `let value =` statement' % name)
+            line = toks[i].line
+            mk = lambda kind, text, off: Tok(kind, text, -10**9 + off, -10**9 + off + len(text), line)
+            out += toks[i:i + 3]
+            pre = [('id', 'crate'), ('p', '::'), ('id', 'coeff'), ('p', '::'), ('id', 'cv'), ('p', '(')]
+            out += [mk(kd, tx, 10 * q) for q, (kd, tx) in enumerate(pre)]
+            out += toks[i + 3:j]
+            last = toks[j - 1].line
+            out += [Tok('p', ',', -10**9 + 100, -10**9 + 101, last), Tok('num', str(k), -10**9 + 110, -10**9 + 111 + len(str(k)), last), Tok('p', ')', -10**9 + 130, -10**9 + 131, last)]
+            out.append(toks[j])
+            k += 1
+            i = j + 1
+            continue
+        out.append(toks[i])
+        i += 1
+    if k == 0:
+        raise AssembleError('lost anchor: rewrite rule %s found no `let value =` statement' % name)
+    log.append('N4 %s (%s): %d statements `let value = E;` -> `let value = crate::coeff::cv(E, K);` K = 0..%d [%s]' % (name, r['kind'], k, k - 1, r.get('assumes')))
+    return out
+
+
 def apply(name, toks, log):
     from assemble import AssembleError
     param = None
@@ -249,6 +292,8 @@ def apply(name, toks, log):
     if name not in RULES:
         raise AssembleError('unknown rewrite rule ' + name)
     r = RULES[name]
+    if r.get('fn') == 'number_values':
+        return _number_values(name, r, toks, log)
     if param is not None:
         r = dict(r, pattern=r['pattern'].replace('@R', param), replace=r['replace'].replace('@R', param))
     pat = []
